@@ -130,7 +130,7 @@ func (h *harness) solo(sc *Script) (*Outcome, *BatchResult, *crash) {
 }
 
 func logComparable(sc *Script) bool {
-	for _, r := range sc.React {
+	for _, r := range append(append([]Reaction{}, sc.React...), sc.Accept...) {
 		for _, a := range r.Acts {
 			switch a.Kind {
 			case "close", "rst", "raw", "half":
@@ -160,6 +160,9 @@ func buildCase(sc *Script, o *Outcome) (ops, impl []string, ok bool) {
 	add(fmt.Sprintf("init %d %s %s %s %s %s", sc.Cfg.Proto, b01(sc.Cfg.Creds), b01(sc.Cfg.BackCh), b01(sc.Cfg.AnyPort), b01(sc.Cfg.Secure), b01(sc.ServerAuth != "")), "ok")
 	for _, r := range sc.React {
 		add(fmt.Sprintf("react %s %d %s", r.M, r.N, r.Abs), "ok")
+	}
+	for _, r := range sc.Accept {
+		add(fmt.Sprintf("accept %d %s", r.N, r.Abs), "ok")
 	}
 	for _, c := range o.Calls {
 		if c.Skipped {
@@ -473,6 +476,12 @@ func Run(ctx *corr.Ctx) {
 	}
 	for i := range nWild {
 		scripts = append(scripts, g.script(i, true))
+	}
+	for i := range ctx.N(120, 3000) {
+		scripts = append(scripts, g.lingering(i))
+	}
+	for i := range ctx.N(150, 3000) {
+		scripts = append(scripts, g.concurrent(i))
 	}
 	h.process(scripts)
 }
